@@ -2,6 +2,7 @@ package main
 
 import (
 	"bytes"
+	"go/types"
 	"context"
 	"fmt"
 	"os"
@@ -51,7 +52,7 @@ func (o *Obligation) query(withModel, noBG bool) string {
 	b.WriteString("\n(check-sat)\n")
 	if withModel && len(r.inputs) > 0 {
 		var vs []string
-		for _, in := range r.inputs {
+		for _, in := range r.modelInputs() {
 			vs = append(vs, in.tv.S)
 		}
 		b.WriteString("(get-value (" + strings.Join(vs, " ") + "))\n")
@@ -113,9 +114,12 @@ func discharge(o *Obligation, dir string, timeoutS int, idx int) {
 	if o.isCover && timeoutS > 3 {
 		timeoutS = 3 // vacuity covers: a quick look only; "unknown" is recorded as inconclusive
 	}
+	if o.exceptObl != nil && timeoutS > 3 {
+		timeoutS = 3 // a recorded known finding is expected to fail here; the decision is made on its except-query
+	}
 	res, text, secs := runSolver(solvers[0], q, dir, tag, timeoutS)
 	o.Result, o.Solver, o.Secs, o.Raw = res, solvers[0].name, secs, text
-	if res == want || res == bad || o.isCover {
+	if res == want || res == bad || o.isCover || o.exceptObl != nil {
 		if res == "sat" {
 			o.Model = text
 		}
@@ -211,8 +215,11 @@ func retryOne(i int, o *Obligation, dir string, timeoutS int) {
 		if o.parts != nil {
 			targets = nil
 			for _, p := range o.parts {
-				if p.Result != "unsat" {
+				if p.Result != "unsat" && p.exceptObl == nil {
 					targets = append(targets, p)
+				}
+				if p.Result != "unsat" && p.exceptObl != nil {
+					return // known finding: decided by the except-query
 				}
 			}
 		}
@@ -278,4 +285,34 @@ func dischargeAll(obls []*Obligation, dir string, timeoutS, workers int) {
 	close(ch)
 	wg.Wait()
 	retryFailed(obls, dir, timeoutS)
+}
+
+// modelInputs: the parameters plus, for parameters that point to structs, the entry values of their scalar fields.
+func (r *Run) modelInputs() []inputVar {
+	if r.modelIn != nil {
+		return r.modelIn
+	}
+	out := append([]inputVar(nil), r.inputs...)
+	for _, in := range r.inputs {
+		if in.tv.T == nil {
+			continue
+		}
+		pt, ok := in.tv.T.Underlying().(*types.Pointer)
+		if !ok || !isStruct(pt.Elem()) {
+			continue
+		}
+		si := r.eng.sorts.structOf(pt.Elem())
+		for i := 0; i < si.st.NumFields(); i++ {
+			ft := si.st.Field(i).Type()
+			if isAggregate(ft) {
+				continue
+			}
+			name := r.eng.fieldHeapName(si, i)
+			if h, ok := r.heapInit[name]; ok {
+				out = append(out, inputVar{in.name + "." + si.st.Field(i).Name(), TV{app("select", h, in.tv.S), r.eng.sorts.sortOf(ft), ft}})
+			}
+		}
+	}
+	r.modelIn = out
+	return out
 }
